@@ -19,6 +19,7 @@ func init() {
 			"W1 nothing outside the pipestance is touched: every path handed to os.RemoveAll by the VDR functions originates from Metadata path accessors (TempDir/enumerateFiles/enumerateTemp) or from keys of fileParamMap, whose keys are the paths produced by walking enumerateFiles(); Node.vdrKill touches no fork when an ancestor directory is a symlink; path containment by string prefix uses a separator-terminated prefix everywhere in the VDR file, " +
 			"W2 what is reported is what is removed: the slice appended to a report's Paths is the slice the removal loop ranges over (or the content of the temp directory removed for the same metadata object), removal happens between the append and the report write, inside a critical section for the kill functions; removal errors of the per-file kill are recorded; a cache entry whose size was added to a report leaves fileParamMap in the same call (directly or via a list whose every element is deleted), so a later vdrKillSome cannot count it again, " +
 			"W3 temp directories go with their phase: each clean*Temp is called only in the states that make it safe, sets its done-flag together with the removal and writes the partial report. " +
+			"W4 no path that wrote the final VDR report returns done == false. " +
 			"NOT decided: equality of Count/Size with the bytes removed, completeness (no volatile file survives), merge arithmetic.",
 		Assumptions: commonAssumptions,
 	}
